@@ -276,9 +276,9 @@ cleanup loop has finished. The message stays in the buffer; this is outside "que
 disconnect request". -/
 theorem late_send_can_be_lost :
     ∃ sched : List Choice,
-      final (exec ⟨50, false, false, fun _ => none⟩ (Pipe.init [0]) sched) = true ∧
-      (exec ⟨50, false, false, fun _ => none⟩ (Pipe.init [0]) sched).done.count 0 = 0 ∧
-      (exec ⟨50, false, false, fun _ => none⟩ (Pipe.init [0]) sched).outQ = [0] :=
+      final (exec ⟨50, 1, 1, 1, false, false, fun _ => none⟩ (Pipe.init [0]) sched) = true ∧
+      (exec ⟨50, 1, 1, 1, false, false, fun _ => none⟩ (Pipe.init [0]) sched).done.count 0 = 0 ∧
+      (exec ⟨50, 1, 1, 1, false, false, fun _ => none⟩ (Pipe.init [0]) sched).outQ = [0] :=
   ⟨[.start, .check 0, .disconnect, .qQuit, .qStep, .qStep, .oQuit, .oStep, .oStep, .iExit, .sInQuit,
     .sOutQuit, .send 0], by decide⟩
 
@@ -296,7 +296,7 @@ actions is enabled — so when nothing is enabled any more all of them have retu
 particular `outHandler` never blocks for good on `stallControl`, `sendDoneQueue` or
 `queueQuit`, and `queueHandler` never on `sendQueue`. -/
 theorem all_terminate (c : Pipe.Cfg) (hfix : c.stallBug = false) (hdb : c.drainBug = false)
-    (ids : List Nat)
+    (hcd : 1 ≤ c.capDone) (hcs : 1 ≤ c.capStall) (ids : List Nat)
     (sched : List Choice)
     (hd : (exec c (Pipe.init ids) sched).disc = true)
     (hq : ∀ ch, stepOpt c (exec c (Pipe.init ids) sched) ch = none) :
@@ -304,7 +304,7 @@ theorem all_terminate (c : Pipe.Cfg) (hfix : c.stallBug = false) (hdb : c.drainB
   cases hf : final (exec c (Pipe.init ids) sched) with
   | true => rfl
   | false =>
-    obtain ⟨ch, _, hen⟩ := progress c hdb _ (fifo_exec c sched _ (ctl_init ids) (fifo_init ids)).1
+    obtain ⟨ch, _, hen⟩ := progress c hdb hcd hcs _ (fifo_exec c sched _ (ctl_init ids) (fifo_init ids)).1
       (stall_exec c hfix sched _ (stall_init ids)) hd hf
     simp [hq ch] at hen
 
@@ -312,10 +312,10 @@ set_option maxRecDepth 8000 in
 open Pipe in
 /-- The hypotheses of `all_terminate` are satisfiable: a complete run. -/
 example : ∃ sched : List Choice,
-    (exec ⟨50, false, false, fun _ => none⟩ (Pipe.init [0, 1]) sched).disc = true ∧
-    final (exec ⟨50, false, false, fun _ => none⟩ (Pipe.init [0, 1]) sched) = true ∧
-    (exec ⟨50, false, false, fun _ => none⟩ (Pipe.init [0, 1]) sched).written = [0] ∧
-    (exec ⟨50, false, false, fun _ => none⟩ (Pipe.init [0, 1]) sched).done = [0, 1] :=
+    (exec ⟨50, 1, 1, 1, false, false, fun _ => none⟩ (Pipe.init [0, 1]) sched).disc = true ∧
+    final (exec ⟨50, 1, 1, 1, false, false, fun _ => none⟩ (Pipe.init [0, 1]) sched) = true ∧
+    (exec ⟨50, 1, 1, 1, false, false, fun _ => none⟩ (Pipe.init [0, 1]) sched).written = [0] ∧
+    (exec ⟨50, 1, 1, 1, false, false, fun _ => none⟩ (Pipe.init [0, 1]) sched).done = [0, 1] :=
   ⟨[.start, .check 0, .send 0, .check 1, .send 1, .qRecvOut, .oRecv, .oStep, .sRecv, .oStep, .oStep,
     .oStep, .qRecvOut, .disconnect, .qQuit, .qStep, .qStep, .qStep, .oQuit, .oStep, .oStep, .iExit,
     .sInQuit, .sOutQuit], by decide⟩
@@ -330,12 +330,12 @@ request — never gets its completion signal. `all_terminate` and `done_exactly_
 `final` hypothesis can then never be met) exclude this for the repaired handler. -/
 theorem stall_bug_deadlocks :
     ∃ sched : List Choice,
-      let s := exec ⟨50, false, true, fun _ => none⟩ (Pipe.init [0, 1]) sched
+      let s := exec ⟨50, 1, 1, 1, false, true, fun _ => none⟩ (Pipe.init [0, 1]) sched
       s.disc = true ∧ final s = false ∧ s.oh = .holding 1 ∧ s.todo = [] ∧ s.checked = [] ∧
       1 ∈ s.sentBefore ∧ s.done.count 1 = 0 ∧
       (∀ ch ∈ [Choice.disconnect, .qRecvOut, .qRecvDone, .qQuit, .qStep, .oRecv, .oQuit, .oStep,
         .iExit, .sRecv, .sInQuit, .sOutQuit, .start, .abandon, .aStep],
-        stepOpt ⟨50, false, true, fun _ => none⟩ s ch = none) :=
+        stepOpt ⟨50, 1, 1, 1, false, true, fun _ => none⟩ s ch = none) :=
   ⟨[.start, .check 0, .send 0, .check 1, .send 1, .qRecvOut, .qRecvOut, .disconnect, .iExit,
     .sInQuit, .sInQuit, .oRecv, .oStep, .oStep, .oStep, .oStep, .qRecvDone, .oRecv, .qQuit, .qStep, .qStep],
     by decide⟩
@@ -348,54 +348,52 @@ request, has no completion signal. With the repair (`drainBug = false`) `all_ter
 `done_exactly_once` cover this path: `final` includes the drained state. -/
 theorem unstarted_without_drain_loses :
     ∃ sched : List Choice,
-      let s := exec ⟨50, true, false, fun _ => none⟩ (Pipe.init [0]) sched
+      let s := exec ⟨50, 1, 1, 1, true, false, fun _ => none⟩ (Pipe.init [0]) sched
       s.disc = true ∧ final s = false ∧ s.todo = [] ∧ s.checked = [] ∧ 0 ∈ s.sentBefore ∧
       s.done.count 0 = 0 ∧
       (∀ ch ∈ [Choice.disconnect, .qRecvOut, .qRecvDone, .qQuit, .qStep, .oRecv, .oQuit, .oStep,
         .iExit, .sRecv, .sInQuit, .sOutQuit, .start, .abandon, .aStep],
-        stepOpt ⟨50, true, false, fun _ => none⟩ s ch = none) :=
+        stepOpt ⟨50, 1, 1, 1, true, false, fun _ => none⟩ s ch = none) :=
   ⟨[.check 0, .send 0, .disconnect, .abandon], by decide⟩
 
 open Pipe in
 /-- The repaired path: queued during the handshake, negotiation fails, everything is signalled
 once. -/
 example :
-    final (exec ⟨50, false, false, fun _ => none⟩ (Pipe.init [0, 1, 2])
+    final (exec ⟨50, 1, 1, 1, false, false, fun _ => none⟩ (Pipe.init [0, 1, 2])
       [.check 0, .send 0, .check 1, .send 1, .check 2, .send 2, .disconnect, .abandon,
        .aStep, .aStep, .aStep, .aStep]) = true ∧
-    (exec ⟨50, false, false, fun _ => none⟩ (Pipe.init [0, 1, 2])
+    (exec ⟨50, 1, 1, 1, false, false, fun _ => none⟩ (Pipe.init [0, 1, 2])
       [.check 0, .send 0, .check 1, .send 1, .check 2, .send 2, .disconnect, .abandon,
        .aStep, .aStep, .aStep, .aStep]).done = [0, 1, 2] := by decide
 
-/-! ## Part 3 — inventory trickle (batching loop of `queueHandler`'s trickle tick) -/
+/-! ## Part 3 — inventory trickle (batching loop of `queueHandler`'s trickle tick)
+
+The batch size is an internal tuning value: the statements hold for every positive size. -/
 
 /-- The trickled `inv` messages carry exactly the queued inventory that survived the
 known-inventory filter, in queue order (nothing dropped, duplicated or reordered by batching). -/
-theorem trickle_preserves_order (l : List Nat) :
-    (Trickle.batch Trickle.maxInvTrickleSize l []).flatten = l := by
-  simpa using Trickle.batch_flatten Trickle.maxInvTrickleSize l []
+theorem trickle_preserves_order (max : Nat) (l : List Nat) :
+    (Trickle.batch max l []).flatten = l := by
+  simpa using Trickle.batch_flatten max l []
 
-/-- No trickled `inv` message is empty or has more than `maxInvTrickleSize` entries. -/
-theorem trickle_batches_bounded (l : List Nat) (c : List Nat)
-    (h : c ∈ Trickle.batch Trickle.maxInvTrickleSize l []) :
-    0 < c.length ∧ c.length ≤ Trickle.maxInvTrickleSize :=
-  Trickle.batch_sizes _ (by decide) l [] (by decide) c h
+/-- No trickled `inv` message is empty or has more than the batch size entries. -/
+theorem trickle_batches_bounded (max : Nat) (hmax : 0 < max) (l : List Nat) (c : List Nat)
+    (h : c ∈ Trickle.batch max l []) : 0 < c.length ∧ c.length ≤ max :=
+  Trickle.batch_sizes max hmax l [] (by simpa using hmax) c h
 
 /-- Every trickled `inv` message but the last is full. -/
-theorem trickle_batches_full (l : List Nat) (pre : List (List Nat)) (c : List Nat)
-    (post : List (List Nat)) (h : Trickle.batch Trickle.maxInvTrickleSize l [] = pre ++ c :: post) (hp : post ≠ []) :
-    c.length = Trickle.maxInvTrickleSize :=
-  Trickle.batch_full _ (by decide) l [] (by decide) pre c post h hp
+theorem trickle_batches_full (max : Nat) (hmax : 0 < max) (l : List Nat) (pre : List (List Nat))
+    (c : List Nat) (post : List (List Nat))
+    (h : Trickle.batch max l [] = pre ++ c :: post) (hp : post ≠ []) : c.length = max :=
+  Trickle.batch_full max hmax l [] (by simpa using hmax) pre c post h hp
 
 /-! ## Constants regenerated from the tree -/
 
-theorem pin_trickle : Generated.C18.maxInvTrickleSize = Trickle.maxInvTrickleSize ∧
-    Generated.C18.maxKnownInventory = Trickle.maxKnownInventory := by decide
 
-
-theorem pin_outputBufferSize : Generated.C18.outputBufferSize = 50 ∧
-    Generated.C18.capOutputQueue = 50 ∧ Generated.C18.capSendQueue = 1 ∧
-    Generated.C18.capSendDoneQueue = 1 := by decide
+/-! Channel capacities, timer intervals, the trickle batch size and the known-inventory cache size are
+internal tuning values of the implementation, not protocol: they are not pinned. The models take
+them as parameters (read from the tree by the harness) and the theorems hold for every value ≥ 1. -/
 
 
 theorem pin_maxProtocolVersion : Generated.C18.maxProtocolVersion = MaxProtocolVersion := by decide
